@@ -182,6 +182,7 @@ func genConcPlan(prop string, seed uint64, thorough bool) *Plan {
 	// start; one or two of them create it in mid-run (SELECT, write there, come
 	// back, write here) while the others flush
 	latedb := twodb && g.chance(3)
+	toggle := prop == "C08" && !twodb && g.chance(4)
 	// a short sequential prologue creates the typed keys
 	var pro []Item
 	for _, t := range types {
@@ -266,6 +267,31 @@ func genConcPlan(prop string, seed uint64, thorough bool) *Plan {
 				}
 				continue
 			}
+			if toggle && g.chance(2) {
+				// all-or-nothing visibility of multi-key commands: a group of names is
+				// created and removed as a whole, and looked at as a whole
+				switch g.r.IntN(8) {
+				case 0, 1:
+					items = append(items, cmdItem("MSET", "n0", g.val(), "n1", g.val(), "n2", g.val()))
+				case 2:
+					items = append(items, cmdItem(g.pick("DEL", "UNLINK"), "n0", "n1", "n2"))
+				case 3:
+					items = append(items, cmdItem("MSETNX", "n0", g.val(), "n1", g.val(), "n2", g.val()))
+				case 4:
+					items = append(items, cmdItem("KEYS", "n*"))
+				case 5:
+					items = append(items, cmdItem("EXISTS", "n0", "n1", "n2"))
+				case 6:
+					items = append(items, cmdItem("MGET", "n0", "n1", "n2"))
+				default:
+					if g.chance(2) {
+						items = append(items, cmdItem("DBSIZE"))
+					} else {
+						items = append(items, cmdItem("KEYS", "*"))
+					}
+				}
+				continue
+			}
 			if twodb && g.chance(6) {
 				// (COPY ... DB n is answered "database copy not supported" by the
 				// emulator, so FLUSHALL is the only command that takes several
@@ -288,6 +314,9 @@ func genConcPlan(prop string, seed uint64, thorough bool) *Plan {
 	obsKeys := g.keys
 	if bitkeys {
 		obsKeys = append(append([]string{}, g.keys...), "b0", "b1")
+	}
+	if toggle {
+		obsKeys = append(append([]string{}, obsKeys...), "n0", "n1", "n2")
 	}
 	if twodb {
 		p.Clients = append(p.Clients, observation(obsKeys, 2, 0, otherDb))
